@@ -16,6 +16,12 @@
 (*                                                                         *)
 (* pending_dials is a MAP with one slot per peer exactly as in the code;   *)
 (* with "d9" \in Fixed it is the proposed repair (a queue per peer).       *)
+(*                                                                         *)
+(* Abstractions: a request opens at most one substream in its life, so the *)
+(* substream id is the request id; connections are not numbered, instead   *)
+(* the service's handle and a queued ConnectionEstablished carry "is this  *)
+(* connection still alive"; the request is shown to the responder's user   *)
+(* (or dropped by its bound) in the step in which it is written.           *)
 (***************************************************************************)
 EXTENDS ReqResp, SequencesExt, FiniteSetsExt, Json
 
@@ -24,42 +30,44 @@ CONSTANTS Peers,      \* responder nodes, e.g. {2, 3}; the requester is node 1
           MaxConc,    \* responders' bound on concurrent inbound requests (NoLimit = none)
           MaxConn,    \* connections that may be established in total
           MaxCancel,  \* cancel_request calls the user may make
+          DialOpts,   \* subset of {"dial", "reject"}
           Fixed,      \* tags of known defects modelled as repaired
-          Refuse,     \* the manager may drop an accepted dial command silently (connection limit)
           KeepHist    \* record the stimulus history (behaviour generation)
 
 R == 1
 FixedNone == {}
 FixedD9 == {"d9"}
+BothOpts == {"dial", "reject"}
+DialOnly == {"dial"}
 
 VARIABLES
   \* RequestResponseProtocol
   inpeers,   \* DOMAIN of `peers`
   active,    \* peer -> set of request ids (peers[p].active)
   pdial,     \* peer -> sequence of request ids (pending_dials; at most one unless repaired)
-  pout,      \* substream id -> [rid, p]   (pending_outbound)
-  fut,       \* request id -> [p, csig]    (pending_inbound: request written, waiting)
+  pout,      \* set of request ids whose substream is being opened (pending_outbound)
+  fut,       \* request id -> cancel signalled  (pending_inbound: request written, waiting)
   cancels,   \* set of request ids         (pending_outbound_cancels)
   evq,       \* events queued by TransportService for the protocol loop
   cmdq,      \* commands queued by the handle
   \* environment
   mgr,       \* peer -> "disc" | "conn"    (TransportManager peer state)
   mdial,     \* peer -> dial in flight
-  svc,       \* peer -> connection (incarnation number) held in TransportService.connections, 0 = none
-  sids,      \* substream id -> [p, i, st]  substreams requested from connection i and not yet reported
-  nconn,     \* peer -> connections established so far; the live one is number nconn[p] while mgr[p] = "conn"
+  svc,       \* peer -> "none" | "live" | "dead": connection held in TransportService.connections
+  sids,      \* request ids whose substream was requested from the live connection, not yet reported
+  nc,        \* connections established so far
   \* responders
-  rq,        \* request id -> none | sent | delivered | dropped | answered | rejected | over
+  rq,        \* request id -> none | delivered | dropped | answered | rejected | over
   inb,       \* peer -> requests shown to its user and not yet answered / rejected
   tgt,       \* request id -> peer
   \* bookkeeping
-  mon, kf, hist, nrid, nsid
+  mon, kf, hist, nrid
 
 pvars == <<inpeers, active, pdial, pout, fut, cancels, evq, cmdq>>
-evars == <<mgr, mdial, svc, sids, nconn>>
+evars == <<mgr, mdial, svc, sids, nc>>
 rvars == <<rq, inb, tgt>>
-vars == <<inpeers, active, pdial, pout, fut, cancels, evq, cmdq, mgr, mdial, svc, sids, nconn,
-          rq, inb, tgt, mon, kf, hist, nrid, nsid>>
+vars == <<inpeers, active, pdial, pout, fut, cancels, evq, cmdq, mgr, mdial, svc, sids, nc,
+          rq, inb, tgt, mon, kf, hist, nrid>>
 
 Q(r) == "q" \o ToString(r)     \* request payload digest
 A(r) == "a" \o ToString(r)     \* digest of the response the responder supplies for request r
@@ -70,21 +78,17 @@ Rids == 0..(MaxReq - 1)
 
 Init ==
   /\ inpeers = {} /\ active = [p \in Peers |-> {}] /\ pdial = [p \in Peers |-> <<>>]
-  /\ pout = <<>> /\ fut = <<>> /\ cancels = {} /\ evq = <<>> /\ cmdq = <<>>
+  /\ pout = {} /\ fut = <<>> /\ cancels = {} /\ evq = <<>> /\ cmdq = <<>>
   /\ mgr = [p \in Peers |-> "disc"] /\ mdial = [p \in Peers |-> FALSE]
-  /\ svc = [p \in Peers |-> 0] /\ sids = <<>> /\ nconn = [p \in Peers |-> 0]
+  /\ svc = [p \in Peers |-> "none"] /\ sids = {} /\ nc = 0
   /\ rq = [r \in Rids |-> "none"] /\ inb = [p \in Peers |-> {}] /\ tgt = [r \in Rids |-> 0]
   /\ mon = MonInit([n \in {R} \cup Peers |-> IF n = R THEN NoLimit ELSE MaxConc])
-  /\ kf = {} /\ hist = <<>> /\ nrid = 0 /\ nsid = 0
-
-\* connection number i with peer p is still alive
-ConnAlive(p, i) == mgr[p] = "conn" /\ nconn[p] = i /\ i # 0
-
-TotalConn == FoldSet(LAMBDA p, acc : acc + nconn[p], 0, Peers)
+  /\ kf = {} /\ hist = <<>> /\ nrid = 0
 
 Drop(f, k) == [x \in DOMAIN f \ {k} |-> f[x]]
 FailEvs(M, S) == FoldSet(LAMBDA r, acc : MonFailEv(acc, R, r), M, S)
 SeqFailEvs(M, s) == FoldLeft(LAMBDA acc, r : MonFailEv(acc, R, r), M, s)
+Of(S, p) == {r \in S : tgt[r] = p}
 
 -----------------------------------------------------------------------------
 (* the user of node R                                                       *)
@@ -97,7 +101,7 @@ UIssue(p, d) ==
      /\ tgt' = [tgt EXCEPT ![r] = p]
      /\ nrid' = nrid + 1
      /\ hist' = H([a |-> "issue", r |-> r, p |-> p, d |-> d])
-  /\ UNCHANGED <<inpeers, active, pdial, pout, fut, cancels, evq, evars, rq, inb, kf, nsid>>
+  /\ UNCHANGED <<inpeers, active, pdial, pout, fut, cancels, evq, evars, rq, inb, kf>>
 
 UCancel(r) ==
   /\ r < nrid /\ mon.req[r].st = "open" /\ ~mon.req[r].canc
@@ -105,7 +109,7 @@ UCancel(r) ==
   /\ cmdq' = Append(cmdq, [c |-> "cancel", rid |-> r, p |-> 0, d |-> ""])
   /\ mon' = MonCancel(mon, R, r)
   /\ hist' = H([a |-> "cancel", r |-> r])
-  /\ UNCHANGED <<inpeers, active, pdial, pout, fut, cancels, evq, evars, rvars, kf, nrid, nsid>>
+  /\ UNCHANGED <<inpeers, active, pdial, pout, fut, cancels, evq, evars, rvars, kf, nrid>>
 
 -----------------------------------------------------------------------------
 (* RequestResponseProtocol::run(): user commands                            *)
@@ -123,38 +127,36 @@ OnSendRequest(c) ==
   IF p \notin inpeers THEN
     IF c.d = "reject" THEN
       /\ mon' = MonFailEv(mon, R, r)                       \* NotConnected
-      /\ UNCHANGED <<inpeers, active, pdial, pout, evars, kf, nsid>>
+      /\ UNCHANGED <<inpeers, active, pdial, pout, evars, kf>>
     ELSE IF mgr[p] = "conn" THEN
       /\ mon' = MonFailEv(mon, R, r)                       \* DialFailed(AlreadyConnected)
-      /\ UNCHANGED <<inpeers, active, pdial, pout, evars, kf, nsid>>
+      /\ UNCHANGED <<inpeers, active, pdial, pout, evars, kf>>
     ELSE IF mdial[p] THEN
       \* TransportManagerHandle::dial: DialingInProgress => Ok(())
       /\ InsertDial(p, r)
-      /\ UNCHANGED <<inpeers, active, pout, evars, mon, nsid>>
+      /\ UNCHANGED <<inpeers, active, pout, evars, mon>>
     ELSE
-      \/ /\ mdial' = [mdial EXCEPT ![p] = TRUE]            \* DialPeer command accepted and executed
-         /\ InsertDial(p, r)
-         /\ UNCHANGED <<inpeers, active, pout, mgr, svc, sids, nconn, mon, nsid>>
-      \/ /\ Refuse                                         \* ... or refused inside TransportManager::dial, only logged
-         /\ pdial' = [pdial EXCEPT ![p] = IF "d9" \in Fixed THEN Append(@, r) ELSE <<r>>]
-         /\ kf' = kf \cup {r} \cup (IF "d9" \in Fixed THEN {} ELSE ToSet(pdial[p]))
-         /\ UNCHANGED <<inpeers, active, pout, evars, mon, nsid>>
-  ELSE IF ~ConnAlive(p, svc[p]) THEN
+      \* DialPeer command accepted; if TransportManager::dial refuses it later (connection limit,
+      \* no address) the protocols are sent a DialFailure (repo commit 7c774cf) - this is the
+      \* dial that fails at once (EDialFail)
+      /\ mdial' = [mdial EXCEPT ![p] = TRUE]
+      /\ InsertDial(p, r)
+      /\ UNCHANGED <<inpeers, active, pout, mgr, svc, sids, nc, mon>>
+  ELSE IF svc[p] # "live" THEN
     /\ mon' = MonFailEv(mon, R, r)                         \* open_substream failed
-    /\ UNCHANGED <<inpeers, active, pdial, pout, evars, kf, nsid>>
+    /\ UNCHANGED <<inpeers, active, pdial, pout, evars, kf>>
   ELSE
     /\ active' = [active EXCEPT ![p] = @ \cup {r}]
-    /\ pout' = (nsid :> [rid |-> r, p |-> p]) @@ pout
-    /\ sids' = (nsid :> [p |-> p, i |-> svc[p], st |-> "req"]) @@ sids
-    /\ nsid' = nsid + 1
-    /\ UNCHANGED <<inpeers, pdial, mgr, mdial, svc, nconn, mon, kf>>
+    /\ pout' = pout \cup {r}
+    /\ sids' = sids \cup {r}
+    /\ UNCHANGED <<inpeers, pdial, mgr, mdial, svc, nc, mon, kf>>
 
 \* on_cancel_request
 OnCancel(c) ==
   /\ IF c.rid \in cancels
-       THEN cancels' = cancels \ {c.rid} /\ fut' = [fut EXCEPT ![c.rid].csig = TRUE]
+       THEN cancels' = cancels \ {c.rid} /\ fut' = [fut EXCEPT ![c.rid] = TRUE]
        ELSE UNCHANGED <<cancels, fut>>
-  /\ UNCHANGED <<inpeers, active, pdial, pout, evars, mon, kf, nsid>>
+  /\ UNCHANGED <<inpeers, active, pdial, pout, evars, mon, kf>>
 
 PCmd ==
   /\ cmdq # <<>>
@@ -166,40 +168,38 @@ PCmd ==
 -----------------------------------------------------------------------------
 (* RequestResponseProtocol::run(): events from the transport service        *)
 
-\* on_connection_established
-OnConnEst(p, i) ==
-  /\ svc' = [svc EXCEPT ![p] = i]
+\* on_connection_established; alive: the connection has not died yet
+OnConnEst(p, alive) ==
+  /\ svc' = [svc EXCEPT ![p] = IF alive THEN "live" ELSE "dead"]
   /\ IF p \in inpeers THEN
        /\ mon' = Fail(mon, "panic: peer already exists")
-       /\ UNCHANGED <<inpeers, active, pdial, pout, sids, nsid>>
+       /\ UNCHANGED <<inpeers, active, pdial, pout, sids>>
      ELSE IF pdial[p] = <<>> THEN
        /\ inpeers' = inpeers \cup {p}
-       /\ UNCHANGED <<active, pdial, pout, sids, nsid, mon>>
+       /\ UNCHANGED <<active, pdial, pout, sids, mon>>
      ELSE
        /\ pdial' = [pdial EXCEPT ![p] = <<>>]
-       /\ IF ConnAlive(p, i) THEN
-            LET n == Len(pdial[p]) IN
+       /\ IF alive THEN
             /\ inpeers' = inpeers \cup {p}
             /\ active' = [active EXCEPT ![p] = ToSet(pdial[p])]
-            /\ pout' = [s \in nsid..(nsid + n - 1) |-> [rid |-> pdial[p][s - nsid + 1], p |-> p]] @@ pout
-            /\ sids' = [s \in nsid..(nsid + n - 1) |-> [p |-> p, i |-> i, st |-> "req"]] @@ sids
-            /\ nsid' = nsid + n
+            /\ pout' = pout \cup ToSet(pdial[p])
+            /\ sids' = sids \cup ToSet(pdial[p])
             /\ mon' = mon
           ELSE \* open_substream failed: the request is failed and the peer is not registered
             /\ mon' = SeqFailEvs(mon, pdial[p])
-            /\ UNCHANGED <<inpeers, active, pout, sids, nsid>>
-  /\ UNCHANGED <<fut, cancels, mgr, mdial, nconn, kf>>
+            /\ UNCHANGED <<inpeers, active, pout, sids>>
+  /\ UNCHANGED <<fut, cancels, mgr, mdial, nc, kf>>
 
 \* on_connection_closed
 OnConnClosed(p) ==
-  /\ svc' = [svc EXCEPT ![p] = 0]
-  /\ pout' = [s \in {x \in DOMAIN pout : pout[x].p # p} |-> pout[s]]
+  /\ svc' = [svc EXCEPT ![p] = "none"]
+  /\ pout' = pout \ Of(pout, p)
   /\ IF p \in inpeers THEN
        /\ inpeers' = inpeers \ {p}
        /\ mon' = FailEvs(mon, active[p])
        /\ active' = [active EXCEPT ![p] = {}]
      ELSE UNCHANGED <<inpeers, active, mon>>
-  /\ UNCHANGED <<pdial, fut, cancels, mgr, mdial, sids, nconn, kf, nsid>>
+  /\ UNCHANGED <<pdial, fut, cancels, mgr, mdial, sids, nc, kf>>
 
 \* on_dial_failure
 OnDialFailure(p) ==
@@ -208,37 +208,44 @@ OnDialFailure(p) ==
        /\ active' = [active EXCEPT ![p] = @ \ ToSet(pdial[p])]
        /\ mon' = SeqFailEvs(mon, pdial[p])
      ELSE UNCHANGED <<pdial, active, mon>>
-  /\ UNCHANGED <<inpeers, pout, fut, cancels, evars, kf, nsid>>
+  /\ UNCHANGED <<inpeers, pout, fut, cancels, evars, kf>>
+
+\* the responder's on_inbound_substream / on_inbound_request for the request just written
+Deliver(M, r) ==
+  LET p == tgt[r] IN
+  IF MaxConc # NoLimit /\ Cardinality(inb[p]) >= MaxConc
+    THEN [m |-> M, st |-> "dropped", inb |-> inb]
+    ELSE [m |-> MonRecv(M, p, R, r, r, Q(r)), st |-> "delivered", inb |-> [inb EXCEPT ![p] = @ \cup {r}]]
 
 \* on_outbound_substream: the request is written, the future waits for response / timeout / cancel
-OnSubOpened(s) ==
-  /\ IF s \in DOMAIN pout THEN
-       LET r == pout[s].rid IN
-       /\ pout' = Drop(pout, s)
+OnSubOpened(r) ==
+  /\ IF r \in pout THEN
+       LET d == Deliver(mon, r) IN
+       /\ pout' = pout \ {r}
        /\ cancels' = cancels \cup {r}
-       /\ fut' = (r :> [p |-> pout[s].p, csig |-> FALSE]) @@ fut
-       /\ rq' = [rq EXCEPT ![r] = "sent"]
-       /\ mon' = mon
+       /\ fut' = (r :> FALSE) @@ fut
+       /\ rq' = [rq EXCEPT ![r] = d.st]
+       /\ inb' = d.inb
+       /\ mon' = d.m
      ELSE /\ mon' = Fail(mon, "panic: pending outbound request does not exist")
-          /\ UNCHANGED <<pout, cancels, fut, rq>>
-  /\ UNCHANGED <<inpeers, active, pdial, evars, kf, nsid, inb, tgt>>
+          /\ UNCHANGED <<pout, cancels, fut, rq, inb>>
+  /\ UNCHANGED <<inpeers, active, pdial, evars, kf, tgt>>
 
 \* on_substream_open_failure
-OnSubOpenFail(s) ==
-  /\ IF s \in DOMAIN pout THEN
-       LET r == pout[s].rid p == pout[s].p IN
-       /\ pout' = Drop(pout, s)
-       /\ active' = [active EXCEPT ![p] = @ \ {r}]
+OnSubOpenFail(r) ==
+  /\ IF r \in pout THEN
+       /\ pout' = pout \ {r}
+       /\ active' = [active EXCEPT ![tgt[r]] = @ \ {r}]
        /\ mon' = MonFailEv(mon, R, r)
      ELSE /\ mon' = Fail(mon, "panic: pending outbound request does not exist")
           /\ UNCHANGED <<pout, active>>
-  /\ UNCHANGED <<inpeers, pdial, fut, cancels, evars, kf, nsid, rvars>>
+  /\ UNCHANGED <<inpeers, pdial, fut, cancels, evars, kf, rvars>>
 
 PEvt ==
   /\ evq # <<>>
   /\ evq' = Tail(evq)
   /\ LET e == Head(evq) IN
-       CASE e.k = "est"      -> OnConnEst(e.x, e.i) /\ UNCHANGED rvars
+       CASE e.k = "est"      -> OnConnEst(e.x, e.i = 1) /\ UNCHANGED rvars
          [] e.k = "closed"   -> OnConnClosed(e.x) /\ UNCHANGED rvars
          [] e.k = "dialfail" -> OnDialFailure(e.x) /\ UNCHANGED rvars
          [] e.k = "subopen"  -> OnSubOpened(e.x)
@@ -251,8 +258,8 @@ PEvt ==
 PFut(r, res) ==
   /\ r \in DOMAIN fut
   /\ res = "resp" => rq[r] = "answered"
-  /\ res = "canceled" => fut[r].csig
-  /\ LET p == fut[r].p IN
+  /\ res = "canceled" => fut[r]
+  /\ LET p == tgt[r] IN
        IF p \in inpeers /\ r \in active[p] THEN
          /\ active' = [active EXCEPT ![p] = @ \ {r}]
          /\ mon' = CASE res = "resp" -> MonResp(mon, R, r, A(r))
@@ -262,79 +269,68 @@ PFut(r, res) ==
   /\ fut' = Drop(fut, r)
   /\ cancels' = cancels \ {r}
   \* what the responder does with a request whose requester has given up is not observable by
-  \* the requester any more; a request already shown to the responder's user keeps its slot
+  \* the requester any more; a request shown to the responder's user keeps its slot
   /\ rq' = [rq EXCEPT ![r] = IF @ = "delivered" THEN @ ELSE "over"]
   /\ hist' = IF res = "err" THEN H([a |-> "timeout", r |-> r]) ELSE hist
-  /\ UNCHANGED <<inpeers, pdial, pout, evq, cmdq, evars, inb, tgt, kf, nrid, nsid>>
+  /\ UNCHANGED <<inpeers, pdial, pout, evq, cmdq, evars, inb, tgt, kf, nrid>>
 
 -----------------------------------------------------------------------------
 (* environment: connection manager, connection tasks                        *)
 
+NewConn(p) ==
+  /\ mgr' = [mgr EXCEPT ![p] = "conn"]
+  /\ nc' = nc + 1
+  /\ evq' = Append(evq, [k |-> "est", x |-> p, i |-> 1])
+
 EDialOk(p) ==
-  /\ mdial[p] /\ (mgr[p] = "disc" => TotalConn < MaxConn)
+  /\ mdial[p] /\ (mgr[p] = "disc" => nc < MaxConn)
   /\ mdial' = [mdial EXCEPT ![p] = FALSE]
-  /\ IF mgr[p] = "disc" THEN
-       /\ mgr' = [mgr EXCEPT ![p] = "conn"]
-       /\ nconn' = [nconn EXCEPT ![p] = @ + 1]
-       /\ evq' = Append(evq, [k |-> "est", x |-> p, i |-> nconn[p] + 1])
-     ELSE UNCHANGED <<mgr, nconn, evq>>      \* a secondary connection: protocols are not told
+  /\ IF mgr[p] = "disc" THEN NewConn(p)
+     ELSE UNCHANGED <<mgr, nc, evq>>      \* a secondary connection: protocols are not told
   /\ hist' = H([a |-> "dialok", p |-> p])
-  /\ UNCHANGED <<inpeers, active, pdial, pout, fut, cancels, cmdq, svc, sids, rvars, mon, kf, nrid, nsid>>
+  /\ UNCHANGED <<inpeers, active, pdial, pout, fut, cancels, cmdq, svc, sids, rvars, mon, kf, nrid>>
 
 EDialFail(p) ==
   /\ mdial[p]
   /\ mdial' = [mdial EXCEPT ![p] = FALSE]
   /\ evq' = Append(evq, [k |-> "dialfail", x |-> p, i |-> 0])
   /\ hist' = H([a |-> "dialfail", p |-> p])
-  /\ UNCHANGED <<inpeers, active, pdial, pout, fut, cancels, cmdq, mgr, svc, sids, nconn, rvars, mon, kf, nrid, nsid>>
+  /\ UNCHANGED <<inpeers, active, pdial, pout, fut, cancels, cmdq, mgr, svc, sids, nc, rvars, mon, kf, nrid>>
 
 \* the peer connects to us (or the user dialed it beforehand)
 EInbound(p) ==
-  /\ mgr[p] = "disc" /\ TotalConn < MaxConn
-  /\ mgr' = [mgr EXCEPT ![p] = "conn"]
-  /\ nconn' = [nconn EXCEPT ![p] = @ + 1]
-  /\ evq' = Append(evq, [k |-> "est", x |-> p, i |-> nconn[p] + 1])
+  /\ mgr[p] = "disc" /\ nc < MaxConn
+  /\ NewConn(p)
   /\ hist' = H([a |-> "connect", p |-> p])
-  /\ UNCHANGED <<inpeers, active, pdial, pout, fut, cancels, cmdq, mdial, svc, sids, rvars, mon, kf, nrid, nsid>>
+  /\ UNCHANGED <<inpeers, active, pdial, pout, fut, cancels, cmdq, mdial, svc, sids, rvars, mon, kf, nrid>>
 
-\* the connection dies (responder disconnects, link cut, keep-alive): pending substreams are
-\* never reported any more, ConnectionClosed is
+\* the connection dies (responder disconnects, link cut, keep-alive): substreams still being
+\* opened are never reported any more, ConnectionClosed is
 EClose(p) ==
   /\ mgr[p] = "conn"
   /\ mgr' = [mgr EXCEPT ![p] = "disc"]
-  /\ sids' = [s \in {x \in DOMAIN sids : sids[x].p # p} |-> sids[s]]
-  /\ evq' = Append(evq, [k |-> "closed", x |-> p, i |-> 0])
+  /\ svc' = [svc EXCEPT ![p] = IF @ = "live" THEN "dead" ELSE @]
+  /\ sids' = sids \ Of(sids, p)
+  /\ evq' = Append([j \in 1..Len(evq) |-> IF evq[j].k = "est" /\ evq[j].x = p THEN [evq[j] EXCEPT !.i = 0] ELSE evq[j]],
+                   [k |-> "closed", x |-> p, i |-> 0])
   /\ hist' = H([a |-> "close", p |-> p])
-  /\ UNCHANGED <<inpeers, active, pdial, pout, fut, cancels, cmdq, mdial, svc, nconn, rvars, mon, kf, nrid, nsid>>
+  /\ UNCHANGED <<inpeers, active, pdial, pout, fut, cancels, cmdq, mdial, nc, rvars, mon, kf, nrid>>
 
-ESubOpen(s) ==
-  /\ s \in DOMAIN sids /\ sids[s].st = "req" /\ ConnAlive(sids[s].p, sids[s].i)
-  /\ sids' = Drop(sids, s)
-  /\ evq' = Append(evq, [k |-> "subopen", x |-> s, i |-> 0])
-  /\ UNCHANGED <<inpeers, active, pdial, pout, fut, cancels, cmdq, mgr, mdial, svc, nconn, rvars, mon, kf, hist, nrid, nsid>>
+ESubOpen(r) ==
+  /\ r \in sids
+  /\ sids' = sids \ {r}
+  /\ evq' = Append(evq, [k |-> "subopen", x |-> r, i |-> 0])
+  /\ UNCHANGED <<inpeers, active, pdial, pout, fut, cancels, cmdq, mgr, mdial, svc, nc, rvars, mon, kf, hist, nrid>>
 
-ESubFail(s) ==
-  /\ s \in DOMAIN sids /\ sids[s].st = "req"
-  /\ sids' = Drop(sids, s)
-  /\ evq' = Append(evq, [k |-> "subfail", x |-> s, i |-> 0])
-  /\ hist' = H([a |-> "subfail", r |-> IF s \in DOMAIN pout THEN pout[s].rid ELSE -1])
-  /\ UNCHANGED <<inpeers, active, pdial, pout, fut, cancels, cmdq, mgr, mdial, svc, nconn, rvars, mon, kf, nrid, nsid>>
+ESubFail(r) ==
+  /\ r \in sids
+  /\ sids' = sids \ {r}
+  /\ evq' = Append(evq, [k |-> "subfail", x |-> r, i |-> 0])
+  /\ hist' = H([a |-> "subfail", r |-> r])
+  /\ UNCHANGED <<inpeers, active, pdial, pout, fut, cancels, cmdq, mgr, mdial, svc, nc, rvars, mon, kf, nrid>>
 
 -----------------------------------------------------------------------------
-(* responders                                                               *)
-
-\* on_inbound_substream + on_inbound_request at the responder
-RDeliver(r) ==
-  /\ rq[r] = "sent"
-  /\ LET p == tgt[r] IN
-       IF MaxConc # NoLimit /\ Cardinality(inb[p]) >= MaxConc THEN
-         /\ rq' = [rq EXCEPT ![r] = "dropped"]
-         /\ UNCHANGED <<inb, mon>>
-       ELSE
-         /\ rq' = [rq EXCEPT ![r] = "delivered"]
-         /\ inb' = [inb EXCEPT ![p] = @ \cup {r}]
-         /\ mon' = MonRecv(mon, p, R, r, r, Q(r))
-  /\ UNCHANGED <<pvars, evars, tgt, kf, hist, nrid, nsid>>
+(* responders' users                                                        *)
 
 RAnswer(r) ==
   /\ rq[r] = "delivered"
@@ -342,7 +338,7 @@ RAnswer(r) ==
   /\ inb' = [inb EXCEPT ![tgt[r]] = @ \ {r}]
   /\ mon' = MonAnswer(mon, tgt[r], r, A(r))
   /\ hist' = H([a |-> "answer", r |-> r])
-  /\ UNCHANGED <<pvars, evars, tgt, kf, nrid, nsid>>
+  /\ UNCHANGED <<pvars, evars, tgt, kf, nrid>>
 
 RReject(r) ==
   /\ rq[r] = "delivered"
@@ -350,19 +346,19 @@ RReject(r) ==
   /\ inb' = [inb EXCEPT ![tgt[r]] = @ \ {r}]
   /\ mon' = MonReject(mon, tgt[r], r)
   /\ hist' = H([a |-> "reject", r |-> r])
-  /\ UNCHANGED <<pvars, evars, tgt, kf, nrid, nsid>>
+  /\ UNCHANGED <<pvars, evars, tgt, kf, nrid>>
 
 -----------------------------------------------------------------------------
-User == \/ \E p \in Peers : \E d \in {"dial", "reject"} : UIssue(p, d)
+User == \/ \E p \in Peers : \E d \in DialOpts : UIssue(p, d)
         \/ \E r \in Rids : UCancel(r)
 Internal ==
   \/ PCmd \/ PEvt
   \/ \E r \in Rids : \E res \in {"resp", "canceled", "err"} : PFut(r, res)
   \/ \E p \in Peers : EDialOk(p) \/ EDialFail(p)
-  \/ \E s \in DOMAIN sids : ESubOpen(s) \/ ESubFail(s)
+  \/ \E r \in Rids : ESubOpen(r) \/ ESubFail(r)
 Env ==
   \/ \E p \in Peers : EInbound(p) \/ EClose(p)
-  \/ \E r \in Rids : RDeliver(r) \/ RAnswer(r) \/ RReject(r)
+  \/ \E r \in Rids : RAnswer(r) \/ RReject(r)
 
 Next == User \/ Internal \/ Env
 Spec == Init /\ [][Next]_vars
@@ -374,9 +370,8 @@ FairSpec == Spec /\ WF_vars(Internal)
 
 \* nothing is in flight at the requesting node
 Quiescent ==
-  /\ evq = <<>> /\ cmdq = <<>> /\ fut = <<>>
+  /\ evq = <<>> /\ cmdq = <<>> /\ fut = <<>> /\ sids = {}
   /\ \A p \in Peers : ~mdial[p]
-  /\ \A s \in DOMAIN sids : sids[s].st # "req"
 
 \* the monitor never objects (second terminal event, foreign response, request seen twice,
 \* bound exceeded, panic)
@@ -387,7 +382,7 @@ QuiesceOK == Quiescent => Unsettled(mon) \subseteq kf
 \* the untagged version - violated by the unrepaired model (selftest: TLC must find D9)
 QuiesceStrict == Quiescent => Unsettled(mon) = {}
 \* bookkeeping of the protocol is exact when nothing is in flight
-BooksOK == Quiescent => /\ pout = <<>> /\ cancels = {}
+BooksOK == Quiescent => /\ pout = {} /\ cancels = {}
                         /\ \A p \in Peers : active[p] = {} /\ (kf = {} => pdial[p] = <<>>)
 \* the responder-side bound on the model state
 BoundOK == MaxConc # NoLimit => \A p \in Peers : Cardinality(inb[p]) <= MaxConc
@@ -396,7 +391,12 @@ BoundOK == MaxConc # NoLimit => \A p \in Peers : Cardinality(inb[p]) <= MaxConc
 Live == \A r \in Rids :
           (r < nrid /\ mon.req[r].st = "open" /\ ~mon.req[r].canc) ~> (mon.req[r].st \in {"resp", "fail"} \/ mon.req[r].canc \/ r \in kf)
 
-View == <<inpeers, active, pdial, pout, fut, cancels, evq, cmdq, mgr, mdial, svc, sids, nconn,
-          rq, inb, tgt, mon, kf, nrid, nsid>>
+\* the monitor's memory about finished requests cannot influence anything the model can still do
+ViewMon == [req |-> [k \in DOMAIN mon.req |-> IF mon.req[k].st \in {"resp", "fail", "void"} /\ rq[k] \in {"over", "none"}
+                                                 THEN [st |-> mon.req[k].st, canc |-> mon.req[k].canc] ELSE mon.req[k]],
+            inb |-> {k \in DOMAIN mon.inb : mon.inb[k].open}, bad |-> mon.bad]
+View == <<inpeers, active, pdial, pout, fut, cancels, evq, cmdq, mgr, mdial, svc, sids, nc,
+          rq, inb, tgt, ViewMon, kf, nrid>>
+Sym == Permutations(Peers)
 Emit == PrintT(<<"B", ToJson([h |-> hist'])>>)
 =============================================================================
